@@ -110,3 +110,7 @@ package packaging
 //@   property C10
 //@   invariant 0: len(versionUrls) == rangeindex + 1 && rangeindex + 1 <= len(pkgInfo.Versions)
 //@   ensures one_dir_per_version: result1 == nil ==> len(result0) == old(len(pkgInfo.Versions))
+
+// The rule `checkSettings` applies to the 'namespace' field, offered to `yardl init`.
+//@ func IsValidNamespaceName
+//@   pure
